@@ -202,8 +202,15 @@ Definition C13_check (i : input) (accepted : bool) (o : outcome) : bool :=
       end
   end.
 
-(* ---- the full statement of the scalar part, as a Prop (what is proved of it: Properties.v) ---- *)
+(* ---- the full statement of the scalar part, as a Prop (proved: Properties.v scalars_meet_definitions_all) ---- *)
 Definition scalars_meet_definitions : Prop :=
   forall signed p raw,
-    3 <= p -> p + 1 <= zlen raw -> words_ok raw = true -> zlen raw < 2 ^ 20 ->
+    words_ok raw = true -> 2 <= p -> p + 1 <= zlen raw ->
+    p * p * 2 ^ 17 < 2 ^ 53 -> (zlen raw - p) * 2 ^ 32 < 2 ^ 53 ->
     exists s, analyze signed p raw = Ok s /\ check_scalars (map (interp signed) raw) p s = true.
+
+(* ---- the full statement of the projection part: for EVERY implementation of the two matrix-vector
+   products and of the residual standard deviation that rounds each product and each sum once (in any
+   order), the reported coefficients and residual pass check_proj.  What is proved of it is the per-row
+   bound for any summation order (Properties.v projection_tree_bound); that gonum's kernels are such an
+   implementation, and the residual tolerance resid_tol, are validated by the correspondence runs only. *)
